@@ -41,6 +41,27 @@ def _cb(data):
     data["cb"] = "called"
 
 
+def _cb_nested(data):
+    """A callback that builds another, unrelated random tree while the outer build is running (e.g. to attach a summary)."""
+    from nutree import Tree
+
+    inner = Tree.build_random_tree({"relations": {"__root__": {"Z": {":count": 2, "zv": 1}}, "Z": {"ZZ": {":count": 1}}},
+                                    "types": {"*": {"zglob": True}}})
+    assert inner.count == 4
+    data["cb"] = "called"
+
+
+import enum as _enum
+
+
+class TE(str, _enum.Enum):
+    """Type names that are members of a str-Enum (they *are* strings equal to their value)."""
+    T0 = "T0"
+    T1 = "T1"
+    T2 = "T2"
+    T3 = "T3"
+
+
 DECL = {}  # id(randomizer object) -> parameters as *declared* by the generator (never read back from the object)
 
 
@@ -96,6 +117,8 @@ def gen_def(rng):
 
     ntypes = rng.randint(1, 4)
     types = [f"T{i}" for i in range(ntypes)]
+    if rng.random() < 0.15:
+        types = [TE(x) for x in types]
     tdefs = {}
     if rng.random() < 0.1:
         # a definition whose attributes are constants that are neither strings nor randomizers (the type marker is an int code)
@@ -193,7 +216,7 @@ def gen_def(rng):
             s["zero"] = 0
             s["empty"] = ""
         if rng.random() < 0.2:
-            s[":callback"] = _cb
+            s[":callback"] = _cb if rng.random() < 0.6 else _cb_nested
         if rng.random() < 0.15:
             s[":factory"] = Fac
         return s
